@@ -59,9 +59,13 @@ theorem l1projWith_shape {α β : Type} [Zero α] [One α] [Add α] [Sub α] [Mu
   by_cases hc : lsum (List.map absf x.data) < eps
   · simp only [hc, ↓reduceIte] at h; cases h; rfl
   · simp only [hc, ↓reduceIte] at h
+    -- whatever the nesting of the raising operations (`.max()`, `st[idx]`) around the final `soft_thresh`
+    -- (index bound to a name or used in place), the result is `⟨x.shape, _⟩`
     simp only [Option.bind_eq_some_iff, Option.map_eq_some_iff] at h
-    obtain ⟨_, _, _, _, rfl⟩ := h
-    rfl
+    first
+      | (obtain ⟨_, _, _, _, rfl⟩ := h; rfl)
+      | (obtain ⟨_, ⟨_, _, _⟩, rfl⟩ := h; rfl)
+      | (obtain ⟨_, _, rfl⟩ := h; rfl)
 
 /-- **`l1_proj` keeps the input's shape on both paths** (feasible early return and thresholded). -/
 theorem l1proj_shape (eps : Rat) (x out : Tens) (h : l1projQ eps x = .ok out) : out.shape = x.shape := by
@@ -77,13 +81,19 @@ theorem l1proj_shape (eps : Rat) (x out : Tens) (h : l1projQ eps x = .ok out) : 
       cases h
       exact l1projWith_shape _ _ _ _ _ _ ho
 
+set_option linter.unusedSimpArgs false in
 /-- the model's shape guard IS the generated `Prox._check_shape` / `Prox.__call__` -/
 theorem checkShape_is_generated (a b : List Int) : checkShape a b = Gen.ProxBody.checkShapeGen a b := by
   unfold checkShape Gen.ProxBody.checkShapeGen
   congr 1
   funext ⟨i1, i2⟩
-  simp only [bne, Bool.not_and, Bool.not_not]
-  rw [Bool.eq_iff_iff]; simp
+  -- robust to the spelling of the guard (De Morgan, nested `if`s, `continue` on the negated guard, commuted
+  -- comparisons): both sides become propositions over integer (in)equalities, decided by `omega`
+  rw [Bool.eq_iff_iff]
+  simp only [bne_iff_ne, bne_eq_false_iff_eq, Bool.not_eq_true', Bool.and_eq_true, Bool.or_eq_true, Bool.not_eq_true,
+    Bool.and_eq_false_iff, Bool.or_eq_false_iff, Bool.not_eq_false', decide_eq_true_eq, decide_eq_false_iff_not,
+    Bool.not_eq_false, ne_eq, gt_iff_lt, ge_iff_le]
+  first | done | omega
 
 theorem guard_is_generated (sh : List Int) (x : Tens) (r : Except String Tens) :
     guard sh x r = Gen.ProxBody.callWith Tens.shape sh (fun (_ : Unit) _ => r) () x := by
